@@ -746,6 +746,12 @@ func runC12(tier string, seed uint64) int {
 			f.OnlyIP = r.chance(1, 3)
 			f.IPBlocks = true
 		}
+		if i%4 == 3 {
+			// an eval world: bare pods that can be named on the command line, every namespace declared, admin policies
+			// with named ports; asked about every pair of pods and about addresses in both directions
+			f.PodsOnly, f.AllNsObjs, f.NamedPorts, f.Large = true, true, true, false
+			f.NANPs, f.BANP = r.between(1, 4), r.chance(1, 2)
+		}
 		w := genWorld(r, f)
 		f0Ctx[i] = c12Context{name: fmt.Sprintf("f0:%d", i), docs: w.Docs, pods: w.Pods}
 		f0Muts[i] = c12Mutant{ctx: i, target: 0, kind: "F0", desc: "undamaged world", text: w.Docs[0].Text, t2: -1}
@@ -761,6 +767,11 @@ func runC12(tier string, seed uint64) int {
 		if len(w.Workloads) > 0 {
 			wn := w.Workloads[0]
 			steps = append(steps, job.Step{Kind: job.List, Dir: "m", Fmt: "dot", Focus: wn, Loud: true}, job.Step{Kind: job.List, Dir: "m", Fmt: "json", Focus: wn[strings.Index(wn, "/")+1:], Exposure: true, Loud: true})
+		}
+		if i%4 == 3 {
+			if st := c12EvalStep("m", &f0Ctx[i]); st != nil {
+				steps = append(steps, *st)
+			}
 		}
 		run := Run{FS: fs, Job: &job.Job{ID: f0Ctx[i].name, MapSeed: 1, Steps: steps, GC: true}}
 		res := execute(&run)
